@@ -12,7 +12,10 @@ COMMON_NOTE = ("Trusted: Coq 8.16.1 kernel (vm_compute used for finite sweeps/wi
                "ExtrOcamlBasic extraction + OCaml 4.13.1, the hand-written OCaml driver and Rust harness "
                "(generator, canonicalisation), the lane-wise semantics given to x86 intrinsics. The Rust code is "
                "modelled by hand (no verified Rust->Gallina path exists here); the model is tied to /repo's working "
-               "tree on every run by the correspondence check (and by the translator where one is named). ")
+               "tree on every run by the correspondence check (and by the translator where one is named). "
+               "Source pins (DESIGN 8.8): pins/source.json holds a fingerprint (comments and white space removed) of every Rust source "
+               "file; when the tree a quick check decides differs from it in a file of the property's crates, nothing is reported for that "
+               "alone, but the quick tier draws its cases from the thorough-tier generator and 4 times as many (evidence notes say so). ")
 
 P = {}
 
@@ -21,27 +24,41 @@ P["C01"] = dict(
          "every cell of every backend's score matrix is the left fold of the code's own addition over the M looked-up "
          "terms (any element type, any addition - hence IEEE addition as it is), unstripe yields exactly L-M+1 values "
          "(none when L<M), row sub-ranges equal the rows of the full scan, AVX2 permute/gather, SSE2 and every dispatcher "
-         "arm equal the generic kernel, -inf absorption for binary32 (Flocq). The AVX2 shuffle masks / lane un-permutation "
-         "are regenerated from avx2.rs by a translator on every run. Tie: extracted model vs implementation, bit-exact "
-         "binary32, DNA/protein, 16/32 columns, all arms, sub-ranges.",
-    note=COMMON_NOTE + "Floating-point summation error bound vs the exact sum: see evidence (partial where not proved).",
-    technique="Coq proof (induction over rows/positions, reflection on translated lane tables) + translator + extracted-model correspondence check",
+         "arm (any arm table, incl. the Arm one with NEON; the NEON kernel by translator and proof only) equal the generic kernel for "
+         "every row range, old buffer content and padding content, -inf absorption and the full summation error bound "
+         "|fl(sum)-sum| <= ((1+2^-24)^n-1) sum|t| for binary32 (Flocq). 45 theorems in C01.v (36), C01History.v (2: the Striped "
+         "hypothesis discharged after any stripe/configure history of the C04 model) and C01Scores.v (7, round 3: after ANY history of "
+         "score_into / score_rows_into / resize / clone / Default calls on ONE reused StripedScores buffer, from any initial content, a "
+         "scoring call gives what the generic pipeline gives on a fresh buffer, and len / is_empty / unstripe are the L-M+1 defined scores; "
+         "the defined score is never -0.0). Translators, re-run on every check: AVX2 shuffle masks / lane un-permutation / dispatcher "
+         "tables (x86 and Arm) / presence, order and nesting depth of the wrappers' guards (translate/score_avx2.py, score_lane4.py) and the "
+         "statement skeleton of scores.rs (translate/score_scores.py -> GenScores.v, proved to be the model's: "
+         "C01_scores_skeleton_as_modelled). Tie: extracted model vs implementation, bit-exact binary32, DNA/protein, 16/32/48/64 columns, "
+         "all arms, sub-ranges, and 10 % histories on one reused score buffer replayed step by step from the observed state.",
+    note=COMMON_NOTE + "Value statements (error bound) exclude NaN/+inf cells, sum|t| >= 2^126 and motifs wider than 2^23; the bit-for-bit "
+         "backend equalities have no such restriction. The NEON kernel is never executed on this host (translator + proof only).",
+    technique="Coq proof (induction over rows/positions and over op histories of one score buffer; reflection on translated lane tables) "
+              "tied by three translators (lane tables + wrapper guards, scores.rs statement skeleton) and the extracted-model "
+              "correspondence check (bit-exact binary32, incl. histories)",
     design="DESIGN.md section 3, C01")
 P["C02"] = dict(
     text="Coq theorems (coq/scan/C02.v) about a line-by-line model of Scanner::next (scan.rs): soundness (every hit is a valid "
          "position with its defined score >= threshold, no duplicates), completeness (the yielded multiset is exactly the "
          "positions at or above the threshold) for every block size, sequence length (incl. L<M, L=0, rows a multiple of the "
          "block size) and threshold, no panic, termination; by induction over blocks. Tie: extracted model vs Scanner on "
-         "generated scans (bit-exact hits, all arms, take(k) prefixes). Thorough tier adds the 30 end-to-end composition theorems of coq/e2e (text -> encode -> stripe -> configure -> Scanner, bridges between the groups' models) as obligations.",
-    note=COMMON_NOTE + "The 8-bit pre-filter's conservativeness is C08's theorem (exact arithmetic); striping/scoring/max kernels are taken by their specifications proved in C01/C04/C07.",
-    technique="Coq proof (induction over blocks, invariant on buffered hits) + extracted-model correspondence check",
+         "generated scans (bit-exact hits, all arms, take(k) prefixes, setters called between calls). Round 3: translate/scan_skel.py re-reads scan.rs on every run into a 22-field statement skeleton (coq/scan/GenScan.v) + the defaults of Scanner::new; C02Source.v (8 theorems) restates the property for the scanner parameterised by that skeleton and shows that 13 single-field deviations violate it; the extracted skeleton scanner is replayed against the implementation too; C02_setters_between_calls_sound (threshold lowered / any block size between calls: soundness). 25 theorems in C02.v (17) + C02Source.v (8). Thorough tier adds the 30 end-to-end composition theorems of coq/e2e (text -> encode -> stripe -> configure -> Scanner, bridges between the groups' models) as obligations.",
+    note=COMMON_NOTE + "The 8-bit pre-filter's conservativeness is C08's theorem (exact arithmetic; binary32 under disc's executable conditioning predicate: C02_concrete_scan_wc_checked; known finding F14 outside it); striping/scoring/max kernels are taken by their specifications proved in C01/C04/C07 (equality with those groups' kernel models: coq/e2e, thorough tier). The skeleton translator also fires on order-only edits (remove(0), tie-break) that the property tolerates: reported as a broken tie, no failing input.",
+    technique="Coq proof (induction over blocks, invariant on buffered hits) + translated statement skeleton of scan.rs (GenScan.v) with the property theorems restated for it + extracted-model correspondence check",
     design="DESIGN.md section 3, C02")
 P["C03"] = dict(
     text="Coq theorems (coq/scan/C03.v) about the model of Scanner::max: None iff no unconsumed position reaches the threshold; "
          "otherwise the result's score is the maximum over unconsumed positions and >= threshold, independent of block size and "
-         "after any prefix of next() calls. Tie: extracted model vs Scanner::max on generated near-tie cases, all arms.",
+         "after any prefix of next() calls. Round 3: C03Source.v (5 theorems) restates this for the scanner parameterised by the statement "
+         "skeleton re-read from scan.rs on every run (translate/scan_skel.py -> GenScan.v); 13 single-field deviations of max() violate it, "
+         "3 order/pruning-only ones do not. 16 theorems in C03.v (11) + C03Source.v (5). Tie: extracted model and extracted skeleton scanner "
+         "vs Scanner::max on generated near-tie cases, all arms, prefixes at block boundaries, setters between next() and max().",
     note=COMMON_NOTE + "Pruning soundness uses C08 (conservative 8-bit scores) and monotonicity of scale in exact arithmetic.",
-    technique="Coq proof (invariant over blocks and consumed prefixes) + extracted-model correspondence check",
+    technique="Coq proof (invariant over blocks and consumed prefixes) + translated statement skeleton of scan.rs (GenScan.v) with the property theorems restated for it + extracted-model correspondence check",
     design="DESIGN.md section 3, C03")
 P["C04"] = dict(
     text="Coq theorems (coq/stripe/C04.v): generic striping into a reused buffer yields the Striped layout (cell (r,c) = symbol c*R+r, "
@@ -94,16 +111,16 @@ P["C09"] = dict(
          "and frequency/weight/log-odds cells have their defining form (exact arithmetic); one-step and two-step conversions perform "
          "the same operations (any number type, so for IEEE as is); rescale to another background; every window score lies between "
          "min_score and max_score; Background::new / FrequencyMatrix::new accept exactly the documented inputs. Tie: bit-exact binary32 "
-         "model vs implementation up to the logarithm, logarithms through an oracle table from the implementation's libm.",
-    note=COMMON_NOTE + "log2/log10/ln/powf are Section variables (no executable Coq logarithm); their assumed facts (log 0 = -inf, monotone) are re-validated on the observed table every run.",
-    technique="Coq proof (exact rationals + number-type-generic operation equality) + bit-exact correspondence check",
+         "model vs implementation up to the logarithm, logarithms through an oracle table from the implementation's libm. Round 3 (C09Stat.v, 26 theorems; 66 with C09.v): Correlation::{dot, norm, auto_correlation, cross_correlation}, CountMatrix::{new, entropy, consensus}, both information_content functions, From<ScoringMatrix> for WeightMatrix and the usize overflow of Background::from_counts are modelled as coded, tied bit-exactly (kind=stat, sqrt = Flocq Bsqrt, log2 / 2^x through oracle tables) and specified over the reals (Cauchy-Schwarz, correlations in [-1,1], entropy in [0, log2 K], information content = relative entropy; cross_correlation symmetric bit for bit in binary32); their statement skeletons are regenerated from pwm/mod.rs on every run (translate/pwm_skel.py) and compared with the pinned ones (C09_source_skeleton).",
+    note=COMMON_NOTE + "log2/log10/ln/powf are Section variables (no executable Coq logarithm); their assumed facts (log 0 = -inf, monotone) are re-validated on the observed table every run. The real-number theorems of C09Stat.v speak about the functions as coded interpreted over R; the distance of the binary32 results from those values is checked with 1e-4 / 1e-3 slack, not proved. Documented, not violations of C09 as worded (notes/pwm.md R3-1..R3-5): WeightMatrix::information_content is computed on the odds ratio (..._is_relative_entropy_refuted), u32 row sums in entropy/consensus, CountMatrix::new never rejects, consensus keeps the last maximum, usize overflow of from_counts.",
+    technique="Coq proof (exact rationals, reals for the statistics functions, number-type-generic operation equality, Flocq binary32 error bounds) + translators (complement table, statement skeletons of pwm/mod.rs) + bit-exact correspondence check",
     design="DESIGN.md section 3, C09")
 P["C10"] = dict(
     text="Coq theorems (coq/pwm/C10.v): the complement table (regenerated from abc.rs) is an involution; reverse complement is reversal "
          "plus complement and an involution on all four matrix kinds; it commutes with count->frequency->weight->scoring conversion under "
          "a strand-symmetric background; scores of the reverse-complemented matrix on the reverse-complemented sequence mirror the "
          "original scores. Tie: bit-exact model vs implementation on all widths incl. the wildcard column.",
-    note=COMMON_NOTE + "Translator: complement table from abc.rs. Commutation is exact-arithmetic (binary32 sums in another order are compared against the bit-exact model).",
+    note=COMMON_NOTE + "Translator: complement table from abc.rs. Commutation is exact-arithmetic (binary32 sums in another order are compared against the bit-exact model; the size of the difference is proved for the mirrored scores and for count -> frequency: C10_revcomp_mirrors_scores_f32, C10_revcomp_commutes_to_freq_f32). 16 theorems. The translate step also regenerates the pwm statement skeletons (GenPwmSkel.v) used by C09.",
     technique="Coq proof (list reversal/permutation lemmas, finite sweep of the translated complement table) + translator + correspondence check",
     design="DESIGN.md section 3, C10")
 P["C11"] = dict(
@@ -117,46 +134,78 @@ P["C11"] = dict(
 P["C12"] = dict(
     text="Coq theorems (coq/tfm/C12.v) about the model of TFM-PVALUE (lightmotif-tfmpvalue): integer-score error bound, the dynamic-programming "
          "table is the exact distribution of the integer score, lookup_pvalue brackets the exact tail probabilities within the stated "
-         "granularity error, ranges ordered in [0,1]. Tie: model vs implementation on every iteration of approximate_pvalue; exact tails by enumeration.",
-    note=COMMON_NOTE + "Partial: probabilities proved over exact rationals; the implementation sums in hash-map order, compared with relative tolerance 1e-9.",
-    technique="Coq proof (induction on rows over exact rationals) + correspondence check",
+         "granularity error, ranges ordered in [0,1]; pvalue() itself (unbounded refinement as fuel-independent function) meets the bounds and "
+         "terminates under a gap condition. Round 3 (C12Ext.v 19 + C12Gen.v 2; 35 with C12.v): no-overflow of the i64 geometry under a stated "
+         "bound on |cell|/g and |score|/g, convergence / run-length / ties-never-converge, range in [0,1] for the binary64 instance, the hash-map "
+         "visiting order proved irrelevant in exact arithmetic and the bounds proved for the order-parameterised model, backgrounds with wildcard "
+         "mass; 22 constants / loop bounds / comparison operators of lib.rs regenerated on every run (translate/tfm_const.py -> GenTfm.v) and "
+         "proved equal to the model's. Tie: the private state is read through verif-hooks accessors (/repo 86badd0) and the binary64 model is "
+         "replayed in the hash-map iteration order the implementation reports: integer geometry, every Q-value row, ranges, converged and "
+         "pvalue() compared bit for bit on every iteration of approximate_pvalue; exact tails by enumeration / convolution.",
+    note=COMMON_NOTE + "Partial: probabilities are proved over exact rationals; binary64 rounding of x/g, score/g and the sums is replayed bit for bit, "
+         "not bounded (only steps with more than 6000 table entries fall back to a 1e-9 relative comparison). Known findings: F35 huge-cell / huge-score "
+         "(|x|/g >= 2^52: integer rescaling inexact in binary64; >= 2^63: i64 overflow, panic in debug / wrong converged value in release) and "
+         "wildcard mass with a finite wildcard cell.",
+    technique="Coq proof (induction on rows over exact rationals; order-parameterised model; Flocq binary64 for the range/no-overflow instances) + translator of the constants of lib.rs + bit-exact correspondence check in the reported hash-map order (verif-hooks accessors)",
     design="DESIGN.md section 3, C12")
 P["C13"] = dict(
-    text="Coq theorems (coq/tfm/C13.v): lookup_score soundness under the exact-distribution invariant and the window predicate; initial window; "
-         "refutation witness for the recorded window-exhaustion finding. Tie: model vs implementation on every refinement step of approximate_score.",
-    note=COMMON_NOTE + "Partial: see C12.",
-    technique="Coq proof (exact rationals) + correspondence check",
+    text="Coq theorems (coq/tfm/C13.v): for every iteration of approximate_score from its initial window the returned score brackets the exact tail "
+         "(C13_approximate_score_bounds, no window hypothesis: window adequacy is a proved invariant since /repo 6b0495b), lookup_score soundness, "
+         "panic-site reachability. Round 3 (C13Ext.v 13 + C12Gen.v 2; 31 with C13.v): no-overflow under a stated bound, convergence, the bounds for "
+         "any hash-map visiting order and for backgrounds with wildcard mass (p <= (1-b_N)^M), score() as fuel-independent function meets the "
+         "bounds; constants of lib.rs regenerated on every run (translate/tfm_const.py). Tie: as C12 (hooks, replay in the reported hash-map "
+         "order, bit for bit) on every refinement step of approximate_score and the final score().",
+    note=COMMON_NOTE + "Partial: see C12 (exact rationals for the probabilities; known findings F35 huge-cell and wildcard mass with a finite wildcard cell).",
+    technique="Coq proof (exact rationals, window-adequacy invariant; order-parameterised model) + translator of the constants of lib.rs + bit-exact correspondence check in the reported hash-map order (verif-hooks accessors)",
     design="DESIGN.md section 3, C13")
 P["C14"] = dict(
     text="Coq theorems (coq/io, coq/transfac): std read_until/read_line over a list of chunks is independent of the chunking (induction on the "
          "chunk list); for each format every well-formed record list printed and read back under every chunking yields exactly those records "
-         "then End. Tie: extracted reader models vs the four readers on generated files and the bundled data bases through many BufReader "
-         "capacities and random chunkings.",
-    note=COMMON_NOTE + "Decimal->f32 conversion is Rust's own str::parse (trusted); nom combinators are modelled by hand.",
-    technique="Coq proof (induction over chunk lists and record lists, print/parse round trip) + extracted-model correspondence check",
+         "then End - and, for TRANSFAC (round 3), End again for every further request (reader_roundtrip_post); Record::to_freq is modelled "
+         "(to_freq_shape, to_freq_rows_normalised). Tie: extracted reader models vs the four readers on generated files and the bundled data bases "
+         "through many BufReader capacities and random chunkings; TRANSFAC cases poll twice more after the end of input under all 9 chunkings and "
+         "compare to_freq(0.0)/(0.5) bit for bit. Translators: io tables (translate/io_abc.py, io_reader.py) and translate/transfac_reader.py "
+         "(the `last` update and starts_with literals of reader.rs, parse_tag codes, alphabet tables -> GenReader.v).",
+    note=COMMON_NOTE + "TRANSFAC: decimal->f32 is NOT trusted to Rust (Dec2F32.f32_of_token, exact, compared bit for bit with str::parse::<f32>); nom combinators are modelled by hand.",
+    technique="Coq proof (induction over chunk lists and record lists, print/parse round trip) + translators of the reader constants + extracted-model correspondence check (all chunkings, polling consumer)",
     design="DESIGN.md section 3, C14")
 P["C15"] = dict(
     text="Coq theorems (coq/io, coq/transfac): for every byte list and every chunking each reader returns Record | Error | End - never Panic, "
-         "never out of fuel - and consuming until the first error terminates. Tie: outcome sequences of the extracted models vs the readers on "
-         "mutated/truncated/random inputs under catch_unwind.",
-    note=COMMON_NOTE,
-    technique="Coq proof (totality + termination measure on unread bytes) + extracted-model correspondence check",
+         "never out of fuel - and consuming until the first error terminates. TRANSFAC, round 3: a POLLING consumer (next() called again any number "
+         "of times after an error or the end: reader_polls_total, reader_total_post, reader_end_is_final) and streams whose fill_buf FAILS or is "
+         "interrupted (std's read_line/append_to_string modelled: reader_total_faults_repaired for `last = buffer.len()`, reader_total_faults_stop for "
+         "the reader as it was; which of the two the code is, is re-read on every run by translate/transfac_reader.py). Tie: outcome sequences of the "
+         "extracted models vs the readers on mutated/truncated/random/UTF-8-damaged inputs under catch_unwind, with 0..6 polls after the first "
+         "non-record outcome and scripted I/O fault streams (this found the stale line offset repaired in /repo 23feb61).",
+    note=COMMON_NOTE + "I/O faults (a fill_buf that fails) are exercised through scripted BufReads by both groups' harnesses; the fault-stream THEOREMS exist for TRANSFAC (the io group's part is being extended this round: notes/io.md); allocation failure and panics inside nom/std are not modelled.",
+    technique="Coq proof (totality + termination measure on unread bytes / line feeds + fault events, invariant on the line offset) + translator of the reader's `last` update + extracted-model correspondence check with a polling consumer and I/O fault scripts",
     design="DESIGN.md section 3, C15")
 P["C16"] = dict(
     text="Coq theorems (coq/sampler/C16.v): for every data set meeting the constructor's guards and every choice list (the RNG replaced by an "
          "explicit choice list), by induction over steps, the motif counts equal the window counts of the active sequences at their starts, "
          "the background counts equal the remaining symbol counts, starts stay in range, no underflow; determinism. Tie: the choice list is read "
-         "off the implementation's trace (seeded StdRng, hook verif_starts) and replayed through the extracted model.",
-    note=COMMON_NOTE + "Hook: Sampler::verif_starts() (feature verif-hooks). rand's generators are trusted; panics on an empty active set are documented outside the quantifier.",
-    technique="Coq proof (state invariant by induction over operation/choice lists) + extracted-model correspondence check",
+         "off the implementation's trace (seeded StdRng, hook verif_starts) and replayed through the extracted model. Round 3: second property "
+         "file C16F.v (13 theorems): invariant and outcome theorems for the float-driven step function next_g / run_g, WeightedIndex never returns "
+         "a zero-weight or out-of-range position (binary64 proof on Flocq), Zoops decision = information-content comparison; third audited file "
+         "SamplerSkel.v (20): the statement lists of sampler.rs regenerated on every run (translate/sampler_skel.py -> GenSampler.v) interpreted "
+         "= the hand model for all states (gen_next_is_model). 52 obligations. The first 20/40 calls of every run are also replayed through the "
+         "FLOAT model (PSSM, weights, rand 0.8.8 WeightedIndex / Uniform from the recorded generator word): the model's own choice must equal "
+         "the implementation's.",
+    note=COMMON_NOTE + "Hook: Sampler::verif_starts() (feature verif-hooks). rand's bit generator (ChaCha12), select_holdout's integer draw and the initial draws stay inputs read off the trace; libm enters as re-validated oracle tables; weights_support is partial (a live position has a positive weight: not proved); panics on an empty active set are documented outside the quantifier.",
+    technique="Coq proof (state invariant by induction over operation/choice lists; Flocq binary64 for the weighted draw) + translated statement lists of sampler.rs proved equal to the model + extracted-model correspondence check (choice-list replay and float replay)",
     design="DESIGN.md section 3, C16")
 P["C17"] = dict(
     text="PARTIAL. Coq theorems (coq/pyglue/C17.v) about a model of the PyO3 glue (argument handling, dispatch, conversions) parameterised over "
          "the core operations: each entry point passes exactly the right arguments to the core operation and returns its result; invalid arguments "
-         "raise exceptions, never panic. Tie: embedded CPython drives the freshly built module, the core library is called in the same process, "
-         "results compared bit for bit.",
-    note=COMMON_NOTE + "CPython 3.11 and PyO3 0.22 run-time are trusted.",
-    technique="Coq proof about the glue model + in-process differential check Python vs core",
+         "raise exceptions, never panic. Round 3 (60 theorems): scanners as lazy state over the LIVE sequence object agree with the eager reading "
+         "(py_scanner_lazy_eq_eager), calls on separate objects are independent (py_threads_independent), file objects whose read() fails: that very "
+         "exception is raised (py_faulty_read_exception_wins), no PanicException from any item of an iteration (py_items_no_panic), a matrix without "
+         "a finite score raises ValueError (py_no_finite_score_raises, /repo a1b1f91); signatures, match arms and every new_err site (message, "
+         "exception class) regenerated from lib.rs / io.rs / pyfile.rs on every run (translate/pyglue_sig.py; py_exception_sites_tied). Tie: embedded "
+         "CPython drives the freshly built module, the core library is called in the same process, results compared bit for bit; histories incl. "
+         "threads, generator arguments, faulty file objects; every case in a child interpreter.",
+    note=COMMON_NOTE + "CPython 3.11 and PyO3 0.22 run-time are trusted; the `mt` (thread) verdict is decided by the worker (concurrent == sequential), not by the model. Known finding left: F25 (tfmpvalue with |score|/granularity beyond i64: the core overflows, tfm F35).",
+    technique="Coq proof about the glue model (parameterised over the core record; lazy-scanner and locality invariants) + translator of signatures / match arms / exception sites + in-process differential check Python vs core",
     design="DESIGN.md section 3, C17")
 P["C18"] = dict(
     text="Coq theorems (coq/pyidx/C18.v): __getitem__ of every class returns the element for -len <= i < len and IndexError otherwise, never a panic; "
@@ -168,10 +217,13 @@ P["C18"] = dict(
 P["C19"] = dict(
     text="Coq theorems (coq/dense/C19.v): stride/alignment arithmetic, refinement of the storage model (rows with arbitrary padding, flat ravel view) "
          "to a rows x columns table for every operation and, by induction on the operation list, every operation sequence; resize/clone/eq/fill/"
-         "iteration consequences. Tied to dense.rs by a correspondence check of the extracted model against DenseMatrix on random operation "
-         "sequences for 4 element types x 7 column counts.",
+         "iteration consequences, incl. (round 3) positional iterator calls: any pattern of next / next_back / nth(k) / nth_back(k) visits the rows "
+         "of a shrinking index window (C19_iteration_steps) and skip / rev().skip / step_by are those walks (C19_iteration_skip_adaptors). 19 theorems. "
+         "Tied to dense.rs by a correspondence check of the extracted model against DenseMatrix on random operation "
+         "sequences over a register file of three matrices for 4 element types x 7 column counts, with positional calls on iter()/iter_mut()/into_iter() "
+         "and len() after each call; PROPFAIL decided by the extracted checker check_C19 (proved sound and complete).",
     note=COMMON_NOTE + "Rust's repr(align) size rule and allocator alignment are assumptions validated by the observed stride/addresses.",
-    technique="Coq proof (induction over op sequences, refinement) + extracted-model correspondence check",
+    technique="Coq proof (induction over op sequences and over iterator call lists, refinement) + extracted-model correspondence check",
     design="DESIGN.md section 3, C19")
 
 # properties whose check is registered (edit as groups are integrated)
@@ -186,9 +238,9 @@ ENGINE_PROPS = sorted(CLAIMED)
 def hook_commits():
     try:
         out = subprocess.check_output(["git", "-C", "/repo", "log", "--format=%h %s"], text=True)
-        return [l.split()[0] for l in out.splitlines() if "verif-hooks" in l]
+        return [l.split()[0] for l in out.splitlines() if l.split(" ", 1)[-1].startswith("verif-hooks:")]
     except Exception:
-        return ["d771cee", "a26a4d5"]
+        return ["86badd0", "a26a4d5", "d771cee"]
 
 
 def main():
@@ -207,7 +259,7 @@ def main():
         "engines": [
             {"name": "coq", "path": "coq/", "serves_properties": ENGINE_PROPS,
              "kind_free_text": "Coq 8.16.1 developments: coq/base (shared), one directory per model group with Model/Proofs/Extract files; "
-                               "property theorems in coq/<group>/Cnn.v; Gen*.v regenerated from /repo by translate/; coq/e2e composes the groups end to end (`./check e2e`, obligations of C02/C03 in the thorough tier)"},
+                               "property theorems in coq/<group>/Cnn.v; Gen*.v regenerated from /repo by translate/; coq/e2e composes the groups end to end (`./check e2e`: E2E.v 30 theorems = obligations of C02/C03, E2EStat.v 21 theorems = obligations of C09/C11/C12/C13 in the thorough tier)"},
             {"name": "harness", "path": "harness/", "serves_properties": ENGINE_PROPS,
              "kind_free_text": "Rust crate with path dependencies on /repo (hooks on): generators and implementation drivers, one binary per model group"},
             {"name": "drivers", "path": "ocaml/", "serves_properties": ENGINE_PROPS,
@@ -216,7 +268,9 @@ def main():
         "checks": [],
         "notes": "Technique: machine-checked proof in Coq 8.16.1 about hand-written Gallina models, tied to /repo on every run by a "
                  "correspondence (differential) check of the extracted models against the implementation, and by translators for table-like "
-                 "parts of the source. See DESIGN.md.",
+                 "parts of the source (tables, constants, loop bounds, statement skeletons: translate/*.py -> coq/<group>/Gen*.v, regenerated on every run; "
+                 "a source a translator cannot parse is a broken obligation). When the source differs from the pinned fingerprints (pins/source.json) the quick "
+                 "tier escalates its search (DESIGN.md 8.8). See DESIGN.md section 8 for the state as built.",
         "not_applicable": [],
     }
     for i in ids:
